@@ -317,7 +317,32 @@ package silence
 //@   nosafe
 //@   at call replaceFile).Close assert [rename-only-complete-snapshot] called("Silences).Snapshot") && ret1("Silences).Snapshot") == nil
 //@   ensures [error-reported] called("Silences).Snapshot") && ret1("Silences).Snapshot") != nil ==> result1 != nil
+//@   at call openReplace assert [collect-garbage-first] called("Silences).GC") && ret1("Silences).GC") == nil && arg0 == deref(snapf) && deref(snapf) != ""
+//@   at call Silences).Snapshot assert [snapshot-into-the-temporary-file] called("openReplace") && ret1("openReplace") == nil
+//@   ensures [gc-error-reported] called("Silences).GC") && ret1("Silences).GC") != nil ==> result1 != nil && !called("openReplace")
+//@   ensures [no-file-no-snapshot] deref(snapf) == "" ==> !called("openReplace")
+//@   ensures [snapshot-whenever-a-file-is-configured] deref(snapf) != "" && called("Silences).GC") && ret1("Silences).GC") == nil ==> called("openReplace") && (ret1("openReplace") == nil ==> called("Silences).Snapshot"))
+//@   ensures [open-error-reported] called("openReplace") && ret1("openReplace") != nil ==> result1 != nil && !called("Silences).Snapshot")
+//@   ensures [success-means-renamed] result1 == nil && deref(snapf) != "" ==> called("replaceFile).Close") && ret("replaceFile).Close") == nil
+//@   ensures [failed-snapshot-discarded] called("Silences).Snapshot") && ret1("Silences).Snapshot") != nil ==> called("os.File).Close") && called("os.Remove") && !called("replaceFile).Close")
+//@   ensures [always-collects] called("Silences).GC")
 //@   noeffect Silences).GC Silences).Snapshot openReplace replaceFile).Close
+// one maintenance run: the given action is executed exactly once and its error is handed back
+//@ func (*Silences).Maintenance$2
+//@   props C11
+//@   nosafe
+//@   requires do != nil
+//@   ensures [runs-once-and-reports] count("dynamic:param:do") == 1 && result == ret1("dynamic:param:do")
+//@   noeffect dynamic:param:do
+// the maintenance loop: one run per tick, and - when a snapshot file is configured - one more on shutdown
+//@ func (*Silences).Maintenance
+//@   props C11
+//@   nosafe
+//@   at call Maintenance$2 assert [runs-the-configured-action] arg0 != nil && (override != nil ==> arg0 == override)
+//@   ensures [one-run-per-tick-plus-shutdown] called("select") ==> count("Maintenance$2") == (snapf != "" ? count("select") : count("select") - 1)
+//@   ensures [missing-interval-or-stop-runs-nothing] (interval == 0 || stopc == nil) ==> !called("Maintenance$2") && !called("select")
+//@   loop 1 invariant count("Maintenance$2") == count("select") && count("select") >= 0
+//@   noeffect Maintenance$2 time.NewTicker Ticker).Stop
 
 // C11: the on-disk form keeps the first matcher set in the legacy field as well; loading undoes it, upgrades
 // records written in the legacy form, and leaves multi-set silences as they were.
@@ -332,6 +357,7 @@ package silence
 //@   requires sil != nil
 //@   ensures [legacy-cleared] len(sil.Matchers) == 0 && sil.Matchers == nil
 //@   ensures [multi-set-untouched] old(len(sil.MatcherSets)) > 0 ==> sil.MatcherSets == old(sil.MatcherSets)
+//@   ensures [nothing-to-upgrade-stays-empty] old(len(sil.MatcherSets)) == 0 && old(len(sil.Matchers)) == 0 ==> len(sil.MatcherSets) == 0
 //@   ensures [legacy-upgraded] old(len(sil.MatcherSets)) == 0 && old(len(sil.Matchers)) > 0 ==> len(sil.MatcherSets) == 1 && sil.MatcherSets[0] != nil && sil.MatcherSets[0].Matchers == old(sil.Matchers)
 //@   assigns sil.Matchers, sil.MatcherSets, sil.MatcherSets[*]
 
